@@ -201,3 +201,8 @@ func verifHeapRemove(i int) *tssItem { return heap.Remove(&tssQ, i).(*tssItem) }
 //@   callsite scionLayer.SerializeTo 2 requires scionLayer.DstIA == lastreadof(scionLayer).SrcIA && scionLayer.SrcIA == lastreadof(scionLayer).DstIA && scionLayer.DstAddrType == lastreadof(scionLayer).SrcAddrType && scionLayer.SrcAddrType == lastreadof(scionLayer).DstAddrType
 //@   callsite scionLayer.SerializeTo 2 requires sameslice(scionLayer.RawDstAddr, lastreadof(scionLayer).RawSrcAddr) && sameslice(scionLayer.RawSrcAddr, lastreadof(scionLayer).RawDstAddr)
 //@   callsite udpLayer.SerializeTo 1 requires udpLayer.DstPort == lastreadof(udpLayer).SrcPort && udpLayer.SrcPort == lastreadof(udpLayer).DstPort
+// The reply authenticator is computed over the header values the reply is sent with: at the MAC computation the
+// traffic class, the exchanged addresses and the next-header value are already the final ones (the path was reversed
+// before; the end-to-end extension is added afterwards and announced through PldType).
+//@   callsite spao.ComputeAuthCMAC 1 requires scionLayer.TrafficClass == dscp<<2 && scionLayer.NextHdr == slayers.L4UDP && scionLayer.DstIA == lastreadof(scionLayer).SrcIA && scionLayer.SrcIA == lastreadof(scionLayer).DstIA && sameslice(scionLayer.RawDstAddr, lastreadof(scionLayer).RawSrcAddr) && sameslice(scionLayer.RawSrcAddr, lastreadof(scionLayer).RawDstAddr)
+//@   callsite scionLayer.SerializeTo 2 requires scionLayer.TrafficClass == dscp<<2
